@@ -7,6 +7,7 @@ from vf.harness import sample
 
 ID = "C02"
 LEVEL = "model_checking"
+ALT_MOUNT = True
 _CFG = None
 
 
@@ -28,13 +29,13 @@ def mk_cfg(ctx, variant="main"):
 def run(ctx):
     global _CFG
     _CFG = mk_cfg(ctx)
-    depth = 9 if ctx.thorough else 8
+    depth = (9 if ctx.thorough else 8) - (2 if ctx.alt else 0)
     res = bfs(run_h, depth, ctx)
     for v in res["violations"]:
         if isinstance(v.get("case"), dict):
             v["case"].setdefault("part", "H")
     _CFG = mk_cfg(ctx, "deny")
-    r2 = bfs(run_h, 8 if ctx.thorough else 7, ctx)
+    r2 = bfs(run_h, (8 if ctx.thorough else 7) - (2 if ctx.alt else 0), ctx)
     for v in r2["violations"]:
         v["case"]["variant"] = "deny"
         v["case"]["part"] = "H"
@@ -44,7 +45,7 @@ def run(ctx):
     res["deny_variant"] = {"states": r2["states"], "transitions": r2["transitions"], "depth": r2["max_depth"]}
     from vf.checks import c02s
     ctx.close()
-    sres = c02s.run_s(ctx)
+    sres = c02s.run_s(ctx) if not ctx.alt else {"violations": [], "coverage": {"executions": 0, "transitions": 0}}
     res["violations"] = res["violations"] + sres["violations"]
     res["states"] += sres["coverage"]["executions"]
     res["transitions"] += sres["coverage"]["transitions"]
